@@ -18,7 +18,8 @@ def run(ctx):
             ('stuck', 18, ['bad:c07-wrong-outcome-at-quiescence'], way)]
     # waypoint: the first transaction rejected (abort possibly interrupted), the second committed behind it; 14 more steps
     wayf = {'pred': 'reach:w-FC', 'depth': 22, 'seed': {'pred': 'reach:w-F-', 'depth': 24}, 'variants': 1 if quick else 3}
-    q12 += [('stuck', 14, ['bad:c07-wrong-outcome-at-quiescence', 'bad:stranded'], wayf)]
+    if not quick:
+        q12 += [('stuck', 14, ['bad:c07-wrong-outcome-at-quiescence', 'bad:stranded'], wayf)]
     # waypoint: the abort of the first (rejected) transaction's proposal still under way while the second is committed behind it
     wayb = {'pred': 'reach:w-BC', 'depth': 22, 'seed': {'pred': 'reach:w-B-', 'depth': 22}, 'variants': 1 if quick else 3}
     q12 += [('stuck', 12, ['bad:c07-wrong-outcome-at-quiescence', 'bad:stranded'], wayb)]
